@@ -80,7 +80,7 @@ class FakePsiVals:
         return FakePsiVals(("slice", self.n, k.start, k.stop), self.tag, self.ctx, self.store)
 
 
-def build_equilibrium(ctx, topo, psi_pf=(0.9, 0.9), size_prefix=""):
+def build_equilibrium(ctx, topo, psi_pf=(0.9, 0.9), size_prefix="", multiplier=None):
     """Skeleton TokamakEquilibrium with symbolic sizes; runs the real describe*/
     createRegionObjects/makeConnection."""
     from hypnotoad.cases import tokamak as T
@@ -103,7 +103,7 @@ def build_equilibrium(ctx, topo, psi_pf=(0.9, 0.9), size_prefix=""):
         nis = 0
     sizes["nx_inter_sep"] = nis
     sizes["start_at_upper_outer"] = topo.endswith("upper_outer_start")
-    sizes["psi_spacing_separatrix_multiplier"] = None
+    sizes["psi_spacing_separatrix_multiplier"] = multiplier
     eq.user_options = OptProxy(real, sizes)
     eq.nonorthogonal_options = T.TokamakEquilibrium.nonorthogonal_options_factory.create({})
     eq.nonorthogonal_options_factory = T.TokamakEquilibrium.nonorthogonal_options_factory
